@@ -122,4 +122,61 @@ theorem C15_callback_reject (h : RawHead) (status : Nat) (line : Bytes) (hs : Li
   unfold serverSpec
   rw [this]
 
+/-! ### concrete instances (non-vacuity) -/
+
+/-- the RFC 6455 §1.3 request: `Connection: keep-alive, Upgrade`, `upgrade: WebSocket`, … -/
+def exHead : RawHead :=
+  { method := GET
+    headers :=
+      [([72, 111, 115, 116], [97]),
+       ([99, 111, 110, 110, 101, 99, 116, 105, 111, 110],
+          [107, 101, 101, 112, 45, 97, 108, 105, 118, 101, 44, 32, 85, 112, 103, 114, 97, 100, 101]),
+       ([117, 112, 103, 114, 97, 100, 101], [87, 101, 98, 83, 111, 99, 107, 101, 116]),
+       (srvVersionName, [49, 51]),
+       (srvKeyName, [100,71,104,108,73,72,78,104,98,88,66,115,90,83,66,117,98,50,53,106,90,81,61,61])] }
+
+theorem exValid : ValidUpgrade exHead [] :=
+  ⟨by decide, by decide, by decide, rfl,
+   ⟨[107, 101, 101, 112, 45, 97, 108, 105, 118, 101, 44, 32, 85, 112, 103, 114, 97, 100, 101],
+      by decide, by decide, [85, 112, 103, 114, 97, 100, 101], by decide, by decide⟩,
+   ⟨[87, 101, 98, 83, 111, 99, 107, 101, 116], by decide, by decide, by decide⟩, by decide,
+   ⟨[100,71,104,108,73,72,78,104,98,88,66,115,90,83,66,117,98,50,53,106,90,81,61,61], by decide⟩⟩
+
+example : (serverSpec .none_ exHead).1 =
+    response101 [115,51,112,80,76,77,66,105,84,120,97,81,57,107,89,71,122,122,104,90,82,98,75,43,120,79,111,61] [] := by
+  decide +kernel
+
+example : ∃ r, serverAfterRead { callback := .none_ } exHead [] =
+    .ok (r, response101 [115,51,112,80,76,77,66,105,84,120,97,81,57,107,89,71,122,122,104,90,82,98,75,43,120,79,111,61] []) := by
+  obtain ⟨r, out, h⟩ := (C15_accept_iff exHead []).2 exValid
+  obtain ⟨key, hk, hout, _⟩ := C15_response exHead r out h
+  have : key = [100,71,104,108,73,72,78,104,98,88,66,115,90,83,66,117,98,50,53,106,90,81,61,61] := by
+    have h2 : hget exHead.headers srvKeyName =
+        some [100,71,104,108,73,72,78,104,98,88,66,115,90,83,66,117,98,50,53,106,90,81,61,61] := by decide
+    rw [h2] at hk; exact (Option.some.inj hk).symm
+  subst this
+  rw [C15_rfc_example] at hout
+  exact ⟨r, hout ▸ h⟩
+
+/-- bytes after the head, a POST, HTTP/1.0, a missing or wrong header: refused -/
+example : ¬ ValidUpgrade exHead [0] := fun h => by cases h.2.2.2.1
+example : serverAfterRead { callback := .none_ } exHead [0] = .error .junkAfterRequest := by rfl
+example : serverAfterRead { callback := .none_ } { exHead with method := [80, 79, 83, 84] } [] =
+    .error .wrongHttpMethod := by rfl
+example : serverAfterRead { callback := .none_ } { exHead with version := 0 } [] = .error .wrongHttpVersion := by
+  rfl
+example : serverAfterRead { callback := .none_ } { exHead with headers := exHead.headers.take 4 } [] =
+    .error .missingSecWebSocketKey := by rfl
+example : serverAfterRead { callback := .none_ } { exHead with headers := exHead.headers.drop 2 } [] =
+    .error .missingConnectionUpgradeHeader := by rfl
+
+/-- without the uniqueness hypothesis header order does matter: two different keys -/
+example : (createParts (exHead.headers ++ [(srvKeyName, [65])])).toOption ≠
+    (createParts ((srvKeyName, [65]) :: exHead.headers)).toOption := by decide +kernel
+
+/-- a callback rejection with a 2xx status is refused instead -/
+example : (serverSpec (.reject 200 [] [] none) exHead).1 = [] := by decide +kernel
+example : (serverSpec (.reject 403 [72] [([88], [89])] (some [110, 111])) exHead).1 =
+    [72, 13, 10, 120, 58, 32, 89, 13, 10, 13, 10, 110, 111] := by decide +kernel
+
 end WsProofs.C15
